@@ -1,4 +1,5 @@
 import SJ.Generated.Consts
+import SJ.Proofs.StreamDocs
 import SJ.Proofs.Stream
 import SJ.Proofs.StreamQueue
 /-
@@ -41,5 +42,32 @@ open SJ.StreamQueue in
     interleaving what has been delivered is exactly chunks `0 … n−1` in order. -/
 theorem C09_delivery_order (evs : List Ev) (s : St) (hr : run {} evs = some s) :
     s.delivered = List.range s.delivered.length ∧ s.delivered.length ≤ s.spawned := delivered_in_order evs s hr
+
+
+open SJ.StreamDocs in
+/-- **The documents of the stream are the documents of the chunks, in order — for every fragmentation.** When the read
+    loop ends with EOF, the non-blank lines of the whole stream are the non-blank lines of the chunks concatenated (no
+    line is cut, duplicated or lost at a chunk boundary), and so are their verdicts under the RFC grammar. -/
+theorem C09_stream_lines (reads : List (List UInt8)) (fin : SJ.Stream.Fin) (heof : (SJ.Stream.run reads fin).2 = .eof) :
+    lines reads.flatten = ((SJ.Stream.run reads fin).1.map lines).flatten ∧
+    lineVerdicts reads.flatten = ((SJ.Stream.run reads fin).1.map lineVerdicts).flatten := stream_lines reads fin heof
+
+open SJ.StreamDocs in
+/-- Hence: if every chunk is either blank (contributes nothing — D7) or accepted by the per-line grammar with documents
+    `vss[i]`, the stream as a whole is the NDJSON text with documents `vss.flatten`; one rejected chunk rejects the
+    stream. -/
+theorem C09_stream_documents (reads : List (List UInt8)) (fin : SJ.Stream.Fin) (heof : (SJ.Stream.run reads fin).2 = .eof)
+    (vss : List (List Spec.JVal)) (hlen : (SJ.Stream.run reads fin).1.length = vss.length)
+    (hdoc : ∀ i (hi : i < (SJ.Stream.run reads fin).1.length),
+      (lines (SJ.Stream.run reads fin).1[i] = [] ∧ vss[i] = []) ∨ Spec.ndText (SJ.Stream.run reads fin).1[i] = .accept (.arr vss[i]))
+    (hne : ∃ c ∈ (SJ.Stream.run reads fin).1, lines c ≠ []) :
+    Spec.ndText reads.flatten = .accept (.arr vss.flatten) := stream_documents reads fin heof vss hlen hdoc hne
+
+open SJ.StreamDocs in
+/-- when the reader fails, the lines delivered so far are a prefix of the stream's lines -/
+theorem C09_stream_prefix (reads : List (List UInt8)) (fin : SJ.Stream.Fin)
+    (hall : ∀ c ∈ (SJ.Stream.run reads fin).1, c.getLast? = some 10) :
+    ∃ tail, lines reads.flatten = ((SJ.Stream.run reads fin).1.map lines).flatten ++ lines tail :=
+  stream_lines_prefix reads fin hall
 
 end SJ.Properties.C09
